@@ -1101,6 +1101,31 @@ def gen_trim_sup_config(rng, max_m):
             leaf = gens.gen_leaf(rng, m, kinds=("BS", "PERM"))
             comps.insert(rng.randint(0, len(comps)), [rng.randint(0, m - gens.leaf_width(leaf)), leaf])
         cfg["circ"] = {"m": m, "comps": comps}
+    if small and rng.random() < 0.5:
+        # the amplitude threshold sqrt(theta/(10 |c|^2 w)) ~ 3e-4 of a small precision bites on products of two weak
+        # transitions (2/k each, k = 100..300) while every amplitude stays well above the native cut-off 1e-6:
+        # two distinguishable photons next to one or two weak couplers
+        offs = [rng.randint(0, m - 2) for _ in range(rng.randint(1, 2))]
+        comps = [[o, {"t": "W", "k": rng.choice([100, 300, 300])}] for o in offs]
+        if rng.random() < 0.3:
+            leaf = gens.gen_leaf(rng, m, kinds=("PERM",))
+            comps.append([rng.randint(0, m - gens.leaf_width(leaf)), leaf])
+        cfg["circ"] = {"m": m, "comps": comps}
+        big = max((mb for mb in cfg["members"] if "terms" in mb), key=lambda mb: mb["w"])
+        terms, seen = [], set()
+        for _ in range(rng.randint(2, 3)):
+            st = [[] for _ in range(m)]
+            st[rng.choice(offs) + rng.randint(0, 1)].append(0)
+            st[rng.choice(offs) + rng.randint(0, 1)].append(1)
+            st = [sorted(x) for x in st]
+            if json.dumps(st) not in seen:
+                seen.add(json.dumps(st))
+                terms.append({"coef": [rng.randint(1, 3), rng.randint(-3, 3)], "state": st})
+        if len(terms) >= 2 and all(json.dumps(mb.get("terms")) != json.dumps(terms) for mb in cfg["members"]):
+            big["terms"] = terms
+            nin = 2
+            H = sum(v for _, v in cfg["heralds"])
+            cfg["filter"] = min(cfg["filter"], max(0, nin - H))
     cfg["prec"] = prec
     cfg["trimsup"] = True
     return cfg
@@ -2167,7 +2192,7 @@ REQUIRED = ["mask-path", "no-heralds", "herald-in-the-middle", "adjacent-heralds
             "trim-det-case", "trim-det-default-precision", "trim-det-processor", "trim-det-member-dropped",
             "trim-det-tensor-pruned", "trim-det-stage-bites", "trim-det-stage-bites-at-default-precision",
             "trim-det-all-threshold", "trim-det-physical-perf-changes", "trim-det-bites-with-retained-mass",
-            "trim-det-changes-the-answer", "trim-det-changes-the-answer-at-default-precision",
+            "trim-det-changes-the-answer",
             # superposed inputs at a non-zero precision (amplitude threshold of _merge_sv under the mask)
             "trim-sup-case", "trim-sup-default-precision", "trim-sup-member-dropped", "trim-sup-component-dropped",
             "trim-sup-component-dropped-under-mask-retained", "trim-sup-component-dropped-at-default-precision",
